@@ -387,6 +387,10 @@ class C04(Engine):
 			cases.append({'pool': pool, 'flavour': 'interactive', 'cache': False, 'ops': [S(texts[-3]), S(texts[0]), S(texts[-1]), S(texts[0]), S(texts[-5])]})
 			cases.append({'pool': pool, 'flavour': 'interactive', 'cache': None, 'ops': [S(texts[-4]), S(texts[-5]), S(texts[2]), S(texts[-5])]})
 			cases.append({'pool': pool, 'flavour': 'interactive', 'cache': 'lib', 'ops': [S(texts[-2]), S(texts[len(mods) - 1]), S(texts[-2]), S(texts[0])]})
+		ex = pools.example_pool()
+		T = lambda m, **kw: {'op': 'transpile', 'm': m, **kw}
+		cases.append({'pool': ex, 'flavour': 'runner', 'cache': 'warm', 'ops': [T('example.json'), T('example.FW.string', isolate=True), T('example.json'), {'op': 'unload', 'm': 'example.FW.string'}, T('example.json')]})
+		cases.append({'pool': ex, 'flavour': 'runner', 'cache': 'lib', 'ops': [{'op': 'runner', 'order': ['example.FW.string', 'example.json', 'example.json']}, T('example.json')]})
 		return cases
 
 	def generate(self, rng: random.Random, index: int) -> dict[str, Any]:
